@@ -92,6 +92,10 @@ Fixpoint send_all (fuel : nat) (total sent : Z) (orc : list sres) : Z * bool :=
     else (sent, true)
   end.
 
+(** does the oracle contain an answer that makes a send fail (error or no progress)? *)
+Definition has_fail (r : list sres) : bool :=
+  existsb (fun x => match x with SErr => true | SOk n => n <=? 0 end) r.
+
 Definition tag (f : fate) (e : qent) : cpy * fate := (cpy_of e, f).
 
 (** send_connection_batch: take_batch (drain: queue emptied, flush window re-armed)
